@@ -254,7 +254,14 @@ def write_wfs_chunk(
         kfilt_func = lambda dat: kfilt(dat, **k_kwargs)  # noqa: E731
         snip = kfilt_func(snip)
     iw = wf_flat['waveform_index'].values
-    wfs_mmap[iw, :, :] = extract_wfs_array(snip, df, channel_neighbors, add_nan_trace=True)[0]
+    wfs_mmap[iw, :, :] = extract_wfs_array(
+        snip,
+        df,
+        channel_neighbors,
+        trough_offset=trough_offset,
+        spike_length_samples=spike_length_samples,
+        add_nan_trace=True,
+    )[0]
 
 
 def extract_wfs_cbin(
